@@ -42,6 +42,8 @@ def record_fields(term_or_node):
 
 
 def run(repo, rep):
+    from ..pitfalls import memo_rule as _memo_rule
+    _memo_rule(repo, rep, 'C18', 'C18.Z1')
     st = repo.module('statuses')
     dm = repo.module('dimsemessages')
     hier = exc_hierarchy(repo)
